@@ -11,7 +11,7 @@ open CssVerif.Gen.C16 CssVerif.Proto
 `incB / incC / incD` in the current context -/
 def R (st st' : St) : Prop :=
   st'.ctx = st.ctx ∧
-  ((st'.b = st.b ∧ st'.c = st.c ∧ st'.d = st.d ∧ st'.rseq = st.rseq) ∨
+  ((st'.b = st.b ∧ st'.c = st.c ∧ st'.d = st.d) ∨
    (∃ c r it, st.ctx = c :: r ∧ st'.rseq = it :: st.rseq ∧
       st'.b = st.b + incB c it.typ ∧ st'.c = st.c + incC c it.typ it.val ∧ st'.d = st.d + incD c it.typ it.val))
 
@@ -25,22 +25,24 @@ theorem append_R (ns : NsMap) (st st' : St) (v : Val) (typ : Cps) (h : append ns
     simp only [top, hc, bind, Except.bind, pure, Except.pure] at h
     split at h
     · split at h
-      · cases h; exact ⟨by simp [hc], Or.inl ⟨rfl, rfl, rfl, rfl⟩⟩
+      · cases h; exact ⟨by simp [hc], Or.inl ⟨rfl, rfl, rfl⟩⟩
       · cases h
-    · cases hp : takePrefix st.pfx v typ with
-      | error e => simp [hp] at h
-      | ok pv =>
-        simp only [hp] at h
-        split at h
-        · split at h
+    · split at h
+      · cases h; exact ⟨by simp [hc], Or.inl ⟨rfl, rfl, rfl⟩⟩            -- a COMMENT item: appended, nothing counted
+      · cases hp : takePrefix st.pfx v typ with
+        | error e => simp [hp] at h
+        | ok pv =>
+          simp only [hp] at h
+          split at h
           · split at h
+            · split at h
+              · cases h
+                exact ⟨by simp [hc, pushItem_ctx], Or.inr ⟨c, r, _, hc, rfl, rfl, rfl, rfl⟩⟩
+              · cases h; exact ⟨by simp [hc], Or.inl ⟨rfl, rfl, rfl⟩⟩
             · cases h
               exact ⟨by simp [hc, pushItem_ctx], Or.inr ⟨c, r, _, hc, rfl, rfl, rfl, rfl⟩⟩
-            · cases h; exact ⟨by simp [hc], Or.inl ⟨rfl, rfl, rfl, rfl⟩⟩
           · cases h
             exact ⟨by simp [hc, pushItem_ctx], Or.inr ⟨c, r, _, hc, rfl, rfl, rfl, rfl⟩⟩
-        · cases h
-          exact ⟨by simp [hc, pushItem_ctx], Or.inr ⟨c, r, _, hc, rfl, rfl, rfl, rfl⟩⟩
 
 /-- effect of one token: the counters are unchanged, or exactly one item `it` was appended and the counters grew
 by exactly `(incB c it, incC c it, incD c it)`, where `c` is the context the item was appended in — the top of
@@ -57,7 +59,7 @@ theorem RS_of_R {st st0 st1 st' : St} (hR : R st0 st1)
   obtain ⟨hb0, hc0, hd0, hr0⟩ := h0
   obtain ⟨hb1, hc1, hd1, hr1⟩ := h1
   obtain ⟨_, hR⟩ := hR
-  rcases hR with ⟨hb, hc, hd, _⟩ | ⟨c, r, it, hcx, hr, hb, hc, hd⟩
+  rcases hR with ⟨hb, hc, hd⟩ | ⟨c, r, it, hcx, hr, hb, hc, hd⟩
   · exact Or.inl ⟨by omega, by omega, by omega⟩
   · refine Or.inr ⟨c, it, ?_, by rw [hr1, hr, hr0], by omega, by omega, by omega⟩
     rcases hctx with h | h
